@@ -102,7 +102,15 @@ def run_one(args):
             try:
                 with contextlib.redirect_stdout(buf):
                     code, run = run_property(prop, 'quick', tmp, quiet=True)
-                rules = sorted({fd.rule for fd in run.findings})
+                rules = {fd.rule for fd in run.findings}
+                # an R13.sibling finding wraps the rule that one of the two packages breaks
+                import re as _re
+                for fd in run.findings:
+                    if fd.rule == 'R13.sibling':
+                        m = _re.match(r'rule (\S+) is violated', fd.msg)
+                        if m:
+                            rules.add(m.group(1))
+                rules = sorted(rules)
                 sites = ['%s %s::%s' % (fd.rule, fd.rel, fd.func) for fd in run.findings]
             except AnalysisError as e:
                 code, rules, sites = 2, [], [str(e)]
